@@ -159,6 +159,67 @@ fn drive(f: &mut dyn Read, bufs: &[usize], log_reads: bool, push: &mut dyn FnMut
     push(m);
 }
 
+/// the other ways std offers to read "to end-of-file": they must be covered by the integrity check as well
+fn drive_api(f: &mut dyn Read, api: &str, size: usize, push: &mut dyn FnMut(Map<String, Value>)) {
+    let mut v: Vec<u8> = if api == "read_to_end" { Vec::with_capacity(size) } else { Vec::new() };
+    let r: std::io::Result<()> = match api {
+        "read_to_end" | "read_to_end0" => f.read_to_end(&mut v).map(|_| ()),
+        "read_to_string" => {
+            let mut s = String::new();
+            let r = f.read_to_string(&mut s);
+            v = s.into_bytes();
+            r.map(|_| ())
+        }
+        "copy" => std::io::copy(f, &mut v).map(|_| ()),
+        "bytes" => {
+            let mut res = Ok(());
+            for b in f.bytes() {
+                match b {
+                    Ok(x) => v.push(x),
+                    Err(e) => {
+                        res = Err(e);
+                        break;
+                    }
+                }
+            }
+            res
+        }
+        _ => {
+            // read_exact of the declared size, then the read that must observe end-of-file
+            v = vec![0u8; size];
+            match f.read_exact(&mut v) {
+                Ok(()) => {
+                    let mut one = [0u8; 1];
+                    match f.read(&mut one) {
+                        Ok(0) => Ok(()),
+                        Ok(_) => {
+                            v.push(one[0]);
+                            let mut rest = vec![];
+                            let r = f.read_to_end(&mut rest).map(|_| ());
+                            v.extend(rest);
+                            r
+                        }
+                        Err(e) => Err(e),
+                    }
+                }
+                Err(e) => {
+                    v.clear();
+                    Err(e)
+                }
+            }
+        }
+    };
+    let mut m = Map::new();
+    m.insert("ev".into(), json!("EEnd"));
+    m.insert("total".into(), json!((v.len() as u64).min(2147483647)));
+    m.insert("crc".into(), json!(hex32(crc32(&v))));
+    m.insert("eof".into(), json!(r.is_ok()));
+    m.insert("failed".into(), json!(r.is_err()));
+    m.insert("summarised".into(), json!(true));
+    m.insert("api".into(), json!(api));
+    push(m);
+}
+
 pub fn run(sc: &Value) -> Vec<Value> {
     let id = sc["sc"].as_str().unwrap_or("?").to_string();
     let mut out: Vec<Value> = vec![];
@@ -181,6 +242,7 @@ pub fn run(sc: &Value) -> Vec<Value> {
         let via = q["via"].as_str().unwrap_or("seek").to_string();
         let pwk = q.get("pwkind").and_then(|x| x.as_str()).unwrap_or("none").to_string();
         let pw = q.get("pw").and_then(|x| x.as_str()).map(unhex);
+        let api = q.get("api").and_then(|x| x.as_str()).unwrap_or("read").to_string();
         let bufs: Vec<usize> = q["bufs"].as_array().map(|a| a.iter().map(|v| v.as_u64().unwrap_or(1) as usize).collect()).unwrap_or_default();
         let under = q.get("under").cloned().unwrap_or(json!({}));
         let mut m = Map::new();
@@ -251,7 +313,12 @@ pub fn run(sc: &Value) -> Vec<Value> {
                                         open.insert("declared".into(), json!(hex32(f.crc32())));
                                         open.insert("usize".into(), json!(f.size().min(2147483647)));
                                         open.insert("method".into(), json!(crate::wexec::code_of(f.compression())));
-                                        drive(&mut f, &bufs, log_reads, &mut |m| evs.push(m));
+                                        if api == "read" {
+                                            drive(&mut f, &bufs, log_reads, &mut |m| evs.push(m));
+                                        } else {
+                                            let sz = f.size().min(1 << 26) as usize;
+                                            drive_api(&mut f, &api, sz, &mut |m| evs.push(m));
+                                        }
                                     }
                                 }
                             }
@@ -279,7 +346,12 @@ pub fn run(sc: &Value) -> Vec<Value> {
                                 open.insert("usize".into(), json!(f.size().min(2147483647)));
                                 open.insert("method".into(), json!(crate::wexec::code_of(f.compression())));
                                 open.insert("sname".into(), abs_name(f.name().as_bytes()));
-                                drive(&mut f, &bufs, log_reads, &mut |m| evs.push(m));
+                                if api == "read" {
+                                            drive(&mut f, &bufs, log_reads, &mut |m| evs.push(m));
+                                        } else {
+                                            let sz = f.size().min(1 << 26) as usize;
+                                            drive_api(&mut f, &api, sz, &mut |m| evs.push(m));
+                                        }
                                 break;
                             }
                             k += 1;
